@@ -85,7 +85,7 @@ Num(n)  == [t |-> "num", n |-> n, s |-> <<>>, a |-> <<>>]
 Str(s)  == [t |-> "str", n |-> 0, s |-> s, a |-> <<>>]
 \* names and operators are stored as indexes into these tables so that every token field has one type
 \* (TLC cannot order sets that mix integers and strings)
-NameTab == <<"F1", "F2", "Fm1", "Fm2", "Fm3", "DeviceGray", "DeviceRGB", "DeviceCMYK", "x",
+NameTab == <<"F1", "F2", "Fm1", "Fm2", "Fm3", "Fm5", "DeviceGray", "DeviceRGB", "DeviceCMYK", "x",
             "CsI1", "CsI3", "CsI4", "CsBad", "CsN2", "CsN3", "CsSep", "CsIdx", "CsLab">>
 OpTab == <<"q", "Q", "cm", "w", "d", "BT", "ET", "Tc", "Tw", "Tz", "TL", "Tf", "Ts", "Td", "TD", "Tm", "T*", "Tj", "TJ", "'", "\"",
            "g", "G", "rg", "RG", "k", "K", "cs", "CS", "sc", "scn", "SC", "SCN", "m", "l", "c", "v", "y", "h", "re",
